@@ -45,7 +45,7 @@ def _case(draw, tier):
     if cks == "none" and size == "wrong":
         size = "right"
     return {"cfg": cfg, "contents": [draw(gen.contents(max_small=20)), draw(gen.contents(max_small=20, big=False))],
-            "ops": draw(st.lists(op, min_size=0, max_size=6)), "pid": draw(st.sampled_from(PIDS)),
+            "ops": draw(ops.history(op, 0, 6)), "pid": draw(st.sampled_from(PIDS)),
             "c": draw(st.integers(0, 1)), "cks": cks, "cks_algo": draw(gen.algo_spelling()), "size": size,
             "flip": draw(st.integers(0, 100)),
             "other_algo_is_store_algo": draw(st.booleans())}
